@@ -295,22 +295,44 @@ def convention_expected(kind, xs, g, i):
     return None
 
 
-def run(tier, seed, only=None):
+def layout_variants(arrs):
+    """every catalogue case is also run with each >=2-d float operand Fortran-ordered and as a strided view"""
+    yield "C", arrs
+    if any(isinstance(a, np.ndarray) and a.ndim >= 2 and a.dtype.kind == "f" for a in arrs):
+        yield "F", [np.asfortranarray(a) if (isinstance(a, np.ndarray) and a.ndim >= 2 and a.dtype.kind == "f") else a for a in arrs]
+        out = []
+        for a in arrs:
+            if isinstance(a, np.ndarray) and a.ndim >= 2 and a.dtype.kind == "f" and a.size:
+                big = np.zeros(tuple(2 * s for s in a.shape), dtype=a.dtype)
+                view = big[tuple(slice(None, None, 2) for _ in a.shape)]
+                view[...] = a
+                out.append(view)
+            else:
+                out.append(a)
+        yield "strided", out
+
+
+def run_shard(tier, seed, only, rank, nproc):
     rng = np.random.default_rng(seed)
     b = Bounded(
         "C02.rest",
         bound="catalogue of %s (shapes (2,3),(3,),(),(2,1,3); every axis incl. negative/tuple/empty; keepdims; ddof 0/1; zeros for prod/cumprod; "
-        "transposed+strided operands; where=/out= masks; broadcasting pairs; conv/pool/batchnorm/gru small configs); values seeded" % ("quick" if tier == "quick" else "thorough (3 value draws per case)"),
-        rule="case = (function, options, operand shapes); non-trivial = at least one float operand with a non-empty gradient compared against the numeric VJP of the op's own forward",
+        "every case with C-ordered, Fortran-ordered and strided-view operands; where=/out= masks; broadcasting pairs; conv/pool/batchnorm/gru small configs); values seeded" % ("quick" if tier == "quick" else "thorough (3 value draws per case)"),
+        rule="case = (function, options, operand shapes, operand layout); non-trivial = at least one float operand with a non-empty gradient compared against the numeric VJP of the op's own forward",
     )
     reps = 1 if tier == "quick" else 3
+    n = -1
     for rep in range(reps):
-        for (name, f, arrs, opts, sel) in cases(rng, tier):
+        for (name, f, arrs0, opts, sel) in cases(rng, tier):
             if only and only not in name:
                 continue
-            desc = dict(fn=name, opts={k: repr(v) for k, v in opts.items()}, shapes=[list(np.shape(a)) for a in arrs])
-            try:
-                ts = [mg.tensor(a.copy(), constant=False) for a in arrs]
+            for layout, arrs in layout_variants(arrs0):
+              n += 1
+              if n % nproc != rank:
+                  continue
+              desc = dict(fn=name, opts={k: repr(v) for k, v in opts.items()}, shapes=[list(np.shape(a)) for a in arrs], layout=layout)
+              try:
+                ts = [mg.tensor(a, constant=False, copy=(layout == "C")) for a in arrs]
                 out = f(*ts)
                 if not isinstance(out, mg.Tensor):
                     b.error(f"{name}: result is not a Tensor")
@@ -331,7 +353,6 @@ def run(tier, seed, only=None):
                         continue
                     b.count("vjp")
                     if isinstance(sel, str):
-                        # convention points: compare away from the kink numerically, at the kink with the convention
                         kink = convention_expected(sel, arrs, g, i)
                         if sel == "ABS0":
                             exp = kink
@@ -358,10 +379,41 @@ def run(tier, seed, only=None):
                             f"grad of operand {i}: got {None if grads[i] is None else np.asarray(grads[i]).tolist()} expected {np.asarray(exp).tolist()}",
                         )
                 b.case(desc, nontrivial=nontriv)
-            except Exception as e:  # an exception inside a *valid* catalogue call is a finding of the harness, not a verdict
+              except Exception as e:  # an exception inside a *valid* catalogue call is a finding of the harness, not a verdict
                 import traceback
 
-                b.error(f"{name} {opts}: {type(e).__name__}: {e} :: {traceback.format_exc()[-300:]}")
+                b.error(f"{name} {opts} [{layout}]: {type(e).__name__}: {e} :: {traceback.format_exc()[-300:]}")
+    return b
+
+
+def _shard(args):
+    b = run_shard(*args)
+    return dict(evaluations=b.evaluations, cases=sorted(b.cases), failures=b.failures, errors=b.errors, samples=b.samples, contract_evals=b.contract_evals, bound=b.bound, rule=b.rule)
+
+
+def run(tier, seed, only=None):
+    import multiprocessing as mp
+    import os
+
+    import time
+
+    t_start = time.time()
+    nproc = max(1, min(12, (os.cpu_count() or 2) - 2))
+    ctx = mp.get_context("fork")
+    with ctx.Pool(nproc) as pool:
+        parts = pool.map(_shard, [(tier, seed, only, r, nproc) for r in range(nproc)])
+    b = Bounded("C02.rest", bound=parts[0]["bound"], rule=parts[0]["rule"])
+    b.t0 = t_start
+    for p in parts:
+        b.evaluations += p["evaluations"]
+        b.cases.update(p["cases"])
+        b.failures += p["failures"]
+        b.errors += p["errors"]
+        for k, v in p["contract_evals"].items():
+            b.contract_evals[k] = b.contract_evals.get(k, 0) + v
+        if len(b.samples) < 6:
+            b.samples += p["samples"][:2]
+    b.failures = b.failures[:200]
     return b
 
 
